@@ -1,6 +1,7 @@
 import PyamgV.Driver.Util
 import PyamgV.Driver.C16
 import PyamgV.Model.ExtC16Relax
+import PyamgV.Model.ExtC09Block
 /-! Driver ops of extension task E51 (property C16; op names prefixed `c16y_`).
 
 * `c16y_relax f name opts rho bs dinv cheb sj sp tx tp shape b n ap aj ax nb bap baj bax`
@@ -12,6 +13,8 @@ import PyamgV.Model.ExtC16Relax
       -> `<schwarzRecOK>#<max_d,c,c' |(A|_d T_d − I)_{c c'}|>`
 * `c16y_hyp_block nb bs bap baj bax dinv`    (rationals) the hypothesis `RightInv` of `relax_block_gauss_seidel_energy`:
       -> `max_i,l,l' |(A_ii Dinv_i − I)_{l l'}|` (`A_ii` = the sum of the stored diagonal blocks of block row `i`)
+* `c16y_tobsr n ap aj ax bs nb bap baj bax`    (rationals) is the recorded block storage the model's `A.tobsr()`
+      (`K.Csr.toBsr`, SciPy `csr_tobsr`) of the CSR matrix?  the hypothesis `htb` of `relax_block_*_energy_tobsr` -> `true|false`
 * `c16y_poly cheb lams`                      (rationals) `1 − λ p(λ)` for `p` = `-cheb[:-1]` (Horner, the loop of
       `polyScalar`) at every listed `λ` -> list -/
 namespace PyamgV.Drv.ExtE51
@@ -66,6 +69,12 @@ def handle : List String → Option String
     some <| Drv.C16.showB (schwarzRecOK A.n ri) ++ "#" ++ showRat (schwarzDefect A ri.tx ri.tp ri.sj ri.sp)
   | ["c16y_hyp_block", nb, bs, bap, baj, bax, dinv] =>
     some <| showRat (blockDefect (Drv.C16.mkR nb bap baj bax) (nat bs) (parseRats dinv))
+  | ["c16y_tobsr", n, ap, aj, ax, bs, nb, bap, baj, bax] =>
+    let B := Drv.C16.mkR nb bap baj bax
+    some <| Drv.C16.showB (match (Drv.C16.mkR n ap aj ax).toBsr (nat bs) with
+      | some T => decide (T.nb = B.n) && decide (T.bs = nat bs) && decide (T.bp = B.ap) && decide (T.bj = B.aj) &&
+          decide (T.bx = B.ax)
+      | none => false)
   | ["c16y_poly", cheb, lams] =>
     match chebCoeffs (parseRats cheb) with
     | [] => some "-"
